@@ -26,6 +26,8 @@ RestoreVerdict(r) ==
      \cup {<<"Exact", p>> : p \in Exact(snap, pre, post, r.opts)}
      \cup {<<"ExtrasKept", p>> : p \in ExtrasChanged(snap, pre, post, r.opts, under)}
      \cup {<<"ExtrasGone", p>> : p \in ExtrasLeft(snap, post, r.opts)}
+     \* what pre-existing symlinks of the destination point to, outside of it, is never touched
+     \cup (IF r.outside_pre # r.outside_post THEN {<<"Confined", "entries outside the destination changed">>} ELSE {})
 
 JailVerdict(r) ==
   (IF r.outside_before # r.outside_after THEN {<<"Confined", "entries outside the destination changed", r.name>>} ELSE {})
